@@ -693,6 +693,34 @@ class SymInt(SymNum):
             return self * (1 << o)
         raise Abort("lshift by symbolic")
 
+    # bitwise operators on non-negative integers below 2^64 (through 64-bit bit-vectors)
+    def _bitop(self, o, f):
+        if isinstance(o, SymInt):
+            b = o.t
+        elif isinstance(o, int) and not isinstance(o, bool):
+            b = z3.IntVal(o)
+        else:
+            return NotImplemented
+        c = ctx()
+        if c.decide(z3.Or(self.t < 0, self.t >= 2**64, b < 0, b >= 2**64)):
+            raise Abort("bitwise operator outside 0 .. 2^64-1")
+        return SymInt(z3.BV2Int(f(z3.Int2BV(self.t, 64), z3.Int2BV(b, 64))))
+
+    def __or__(self, o):
+        return self._bitop(o, lambda a, b: a | b)
+
+    __ror__ = __or__
+
+    def __and__(self, o):
+        return self._bitop(o, lambda a, b: a & b)
+
+    __rand__ = __and__
+
+    def __xor__(self, o):
+        return self._bitop(o, lambda a, b: a ^ b)
+
+    __rxor__ = __xor__
+
     def bit_length(self):
         """int.bit_length for |x| < 2^64 (one ite per bit)"""
         t = self.t
